@@ -1878,6 +1878,22 @@ func (r *raft) restore(s *pb.Snapshot) bool {
 		return false
 	}
 
+	// NB: while an earlier snapshot is still being applied there is nothing to
+	// scan: no entries are handed out for application, and the entries below
+	// that snapshot are gone.
+	if !r.raftLog.hasNextOrInProgressSnapshot() && r.hasUnappliedConfChanges() {
+		// The application may still be applying a committed configuration change
+		// that was handed to it earlier (it calls ApplyConfChange while, or
+		// after, we process this message). Restoring now would switch to the
+		// snapshot's configuration first, and the late ApplyConfChange would
+		// then be applied on top of it, leaving the node with a configuration
+		// that no other node has. Ignore the snapshot; the leader retries once
+		// the change has been applied.
+		r.logger.Infof("%x [commit: %d, applied: %d] ignored snapshot [index: %d, term: %d]: configuration changes pending application",
+			r.id, r.raftLog.committed, r.raftLog.applied, s.GetMetadata().GetIndex(), s.GetMetadata().GetTerm())
+		return false
+	}
+
 	// More defense-in-depth: throw away snapshot if recipient is not in the
 	// config. This shouldn't ever happen (at the time of writing) but lots of
 	// code here and there assumes that r.id is in the progress tracker.
